@@ -22,6 +22,8 @@ package congestion
 //@   update ccInstalls = ccInstalls + 1
 //@   update ccInstalledRef = payload(cc)
 
+//@ structural C10: calls (*Conn).SetCongestionControl in UseBrutal | UseBBR
+
 // UseBrutal installs, on the given connection, a Brutal sender built for
 // exactly the given rate.
 //@ guard call (*Conn).SetCongestionControl(c, cc) in UseBrutal
